@@ -271,6 +271,8 @@ class Interp(Folder):
         if isinstance(v, Obj):
             if a in v.attrs:
                 return v.attrs[a]
+            if a == "__class__":
+                return ("type-of", v)
             if a in v.cls.methods:
                 return v.cls.methods[a].bind(v)
             raise PyRaise("AttributeError", f"{v.cls.name}.{a}", e)
@@ -709,6 +711,20 @@ class Interp(Folder):
             return
         if isinstance(st, ast.AugAssign):
             tgt_load = ast.copy_location(ast.parse(ast.unparse(st.target), mode="eval").body, st.target)
+            cur = self.ev(tgt_load, env)
+            # Python's in-place operators mutate lists, dicts and sets (every alias sees the change)
+            if isinstance(cur, list) and isinstance(st.op, ast.Add):
+                cur.extend(self.iterate(self.ev(st.value, env)))
+                return
+            if isinstance(cur, (dict, set)) and isinstance(st.op, ast.BitOr):
+                cur.update(self.ev(st.value, env))
+                return
+            if isinstance(cur, set) and isinstance(st.op, ast.Sub):
+                cur.difference_update(self.ev(st.value, env))
+                return
+            if isinstance(cur, set) and isinstance(st.op, ast.BitAnd):
+                cur.intersection_update(self.ev(st.value, env))
+                return
             val = self.ev_BinOp(ast.BinOp(left=tgt_load, op=st.op, right=st.value), env)
             self.bind(st.target, val, env)
             return
